@@ -78,15 +78,16 @@ type Dataset struct {
 }
 
 type DatasetOpts struct {
-	Rows        int
-	MaxCols     int
-	HostileCols bool // column names from the hostile pool (NUL-free) instead of identifiers
-	HostileVals bool
-	WithUnique  bool // add a unique-per-row column present in every non-empty row
-	MaxCard     int  // cap on "many distinct" cardinality (0 = default 1500)
-	NoMissing   bool
-	EmptyRows   bool // sprinkle fully empty rows and a trailing block of them
-	Shapes      []ValueShape
+	Rows          int
+	MaxCols       int
+	HostileCols   bool // column names from the hostile pool (NUL-free) instead of identifiers
+	HostileVals   bool
+	WithUnique    bool // add a unique-per-row column present in every non-empty row
+	MaxCard       int  // cap on "many distinct" cardinality (0 = default 1500)
+	NoMissing     bool
+	EmptyRows     bool // sprinkle fully empty rows and a trailing block of them
+	Shapes        []ValueShape
+	TrailingEmpty int // force that many fully empty rows at the end
 	// Concat builds a dataset whose column names are prefixes of each other and whose values complete them, so that
 	// different (column,value) pairs have equal concatenations ("a"+"bc" = "ab"+"c"): any key encoding that does not
 	// keep column and value apart confuses them.
@@ -206,6 +207,9 @@ func MakeDataset(rng *rand.Rand, id string, o DatasetOpts) *Dataset {
 	trailingEmpty := 0
 	if o.EmptyRows && o.Rows > 3 && rng.Intn(2) == 0 {
 		trailingEmpty = 1 + rng.Intn(3)
+	}
+	if o.TrailingEmpty > 0 && o.Rows > o.TrailingEmpty {
+		trailingEmpty = o.TrailingEmpty
 	}
 	for i := 0; i < o.Rows; i++ {
 		r := oracle.Row{}
